@@ -1,6 +1,6 @@
 # C02 - no lost, early or duplicate wake-up of a future's waiters
 import re
-from ..core import norm, relloc, live, calls, evs, Broken, value_origin, Tracer, fmt_trace, rooted
+from ..core import norm, relloc, live, calls, evs, Broken, value_origin, Tracer, fmt_trace, rooted, tests, cond_event
 from .. import atomic, publish
 from ..rules import *
 from . import shared
@@ -56,7 +56,7 @@ def subscribe_protocol(ctx, db):
             if not ret:
                 continue
             rv = ret[-1].get('const')
-            brs = [(i, it) for i, it in enumerate(tr) if it.k == 'branch' and it.cond_ev in [c['id'] for c in cas]]
+            brs = [(i, it) for i, it in enumerate(tr) if it.k == 'branch' and any(tests(it, c) for c in cas)]
             if rv == 1 or rv is None:
                 ntrue += 1
                 if not brs or brs[-1][1].val is not True:
@@ -111,8 +111,7 @@ def resolve_one_rmw(ctx, db):
             ctx.ob(rid, f, f['key'], ok, 'one exchange on the chain installing %s (found %s)' % (newval, ['%s(%s)' % (atomic.opname(o), (o.get('args') or [{}])[0].get('path')) for o in ops]),
                    desc='chain not detached by a single exchange')
             if ops:
-                use = ops[0].get('use') or ''
-                ctx.ob(rid, f, ops[0]['loc'], use == 'arg:cocls::awaiter::resume_chain_lk', 'the detached chain is handed to resume_chain_lk and nothing else', desc='detached chain not handed to the walker')
+                ctx.ob(rid, f, ops[0]['loc'], flows_only_into(f, ops[0], 'cocls::awaiter::resume_chain_lk'), 'the detached chain is handed to resume_chain_lk and nothing else', desc='detached chain not handed to the walker')
     # writers of the future's slot: atomic writes + constructor initialisers
     def pred(f, e):
         if e.k == 'call' and atomic.is_atomic_call(e) and norm(e.get('field')) == SLOT and atomic.opname(e) in ('store', 'exchange', 'operator=', 'compare_exchange_weak', 'compare_exchange_strong'):
@@ -287,7 +286,7 @@ def sync_waits(ctx, db):
                     continue
                 reg = None
                 for it in tr[si:]:
-                    if it.k == 'branch' and it.cond_ev == tr[si].get('id'):
+                    if tests(it, tr[si]):
                         reg = it.val; break
                 waits = all_indices(tr, lambda ev: ev.k == 'call' and atomic.is_atomic_call(ev) and atomic.opname(ev) == 'wait' and norm(ev.get('field')) == 'cocls::sync_awaiter::flag')
                 dt = index_of(tr, lambda ev: ev.k == 'dtor' and 'sync_awaiter' in (ev.get('type') or ''))
